@@ -74,7 +74,7 @@ def run_scripted(spec, heuristic=None, mode="dual", tol=0.25):
         scale = 1.0 if k == 0 else 0.5
         pts = L.full_pts(spec, w.G.shape[0])
         w.optimal_G = scale * (pts.T @ pts)
-        w.optimal_F = L.full_fvals(spec, w.F.shape[0])
+        w.optimal_F = L.full_fvals(spec, w.F.shape[0]) + 0.25 * k      # every solve call reports its own values
         assert w.optimal_F.shape == w.F.shape
         return dict(wc_value=w.optimal_F[pep.objective.counter], duals=duals, constraints=cons,
                     objective=w.prob.objective)
